@@ -232,6 +232,35 @@ def rule_no_growth(ctx: Ctx, repo: Repo) -> None:
               construct="; ".join(norm(l.iter) for l in loops))
 
 
+def rule_class_stubs_kept_apart(ctx: Ctx, repo: Repo) -> None:
+    """R-C06.4: build_module_stubs never merges generated TypedDict classes: every class of the module stub is one
+    of the classes the definitions carried (so the per-TypedDict key bound carries over to the rendered stub)."""
+    from . import render_model as RM
+    from .sig_model import param, sig
+    bm = repo.fn("monkeytype.stubs", "build_module_stubs")
+    ctx.functions.add(bm.fq)
+    INT = S("t:int")
+    def cs(name, *fields):
+        return RM.class_stub(f"{name}(TypedDict)", [], [RM.attribute_stub(f, INT) for f in fields])
+    in1 = [cs("ConfigTypedDict__RENAME_ME__", "host", "port")]
+    in2 = [cs("ConfigTypedDict__RENAME_ME__", "path", "mode")]
+    in3 = [cs("OtherTypedDict__RENAME_ME__", "x"), cs("OtherTypedDict__RENAME_ME__NonTotal", "y")]
+    defs = [RM.definition("pkg.mod", "load", "MODULE", sig([param("config", S("t:'ConfigTypedDict__RENAME_ME__'"))]), False, tuple(in1)),
+            RM.definition("pkg.mod", "save", "MODULE", sig([param("config", S("t:'ConfigTypedDict__RENAME_ME__'"))]), False, tuple(in2)),
+            RM.definition("pkg.mod", "C.m", "INSTANCE", sig([param("self"), param("other", S("t:'OtherTypedDict__RENAME_ME__NonTotal'"))]), False, tuple(in3))]
+    res = RM.build_module_stubs(repo, defs, lambda e: {"mypy_extensions": ("TypedDict",)})
+    mods = {k.v: v for k, v in res.fields["items"]}
+    ms = mods.get("pkg.mod")
+    got = ms.fields["typed_dict_class_stubs"].fields["items"] if ms is not None and isinstance(ms.fields.get("typed_dict_class_stubs"), R) else None
+    def shape(c):
+        return (c.fields["name"].v, tuple(a.fields["name"].v for a in c.fields["attribute_stubs"].fields["items"]))
+    want = sorted(shape(c) for c in in1 + in2 + in3)
+    have = sorted(shape(c) for c in got) if got is not None else None
+    ctx.check(have == want, "R-C06.4", bm.fq,
+              "the module stub carries exactly the generated TypedDict classes of its functions, field set by field set (same-named classes are not merged into a bigger one)",
+              construct=f"classes {have}, expected {want}")
+
+
 def run(ctx: Ctx, repo: Repo, tier: str) -> None:
     ctx.trust("Python argument binding (positional then keyword) against the callee's signature as written in the source")
     rule_default(ctx, repo)
@@ -239,3 +268,4 @@ def run(ctx: Ctx, repo: Repo, tier: str) -> None:
     rule_creation(ctx, repo)
     rule_merge_gate(ctx, repo)
     rule_no_growth(ctx, repo)
+    rule_class_stubs_kept_apart(ctx, repo)
